@@ -111,6 +111,10 @@ def make_items(cx, spec, nprog, nenv, streams=('corpus', 'fragment', 'shapes')):
             items.append({'name': f'edgeroles/{cx.seed}/{i}', 'src': src, 'nenv': max(30, nenv // 3), 'seed': cx.seed, 'stream': 'edgeroles', 'tags': tags,
                           # the exhaustive region enumeration (oracle.exact_envs) varies size, index and fee only
                           'exact': (spec.get('exact', False) if not tags and not any(f in src for f in ('RekeyTo', 'CloseRemainderTo', 'OnCompletion', 'Sender')) else False)})
+    if 'twosite' in streams:
+        for i in range(gen.N_TWOSITE):
+            items.append({'name': f'twosite/{cx.seed}/{i}', 'src': gen.twosite(cx.seed, i), 'nenv': max(30, nenv // 3), 'seed': cx.seed, 'stream': 'twosite',
+                          'exact': spec.get('exact', False)})
     if 'lookalike' in streams:
         rng = random.Random(f"lookalike/{cx.seed}")
         idxs = list(range(gen.N_LOOKALIKE)); rng.shuffle(idxs)
@@ -210,13 +214,48 @@ def classify(cx, pid, spec, results):
     return stats, diffs
 
 
+def c08_converse(cx):
+    """C08, second sentence: a field compared with global ZeroAddress / a literal address on every accepting path through a block is
+    not reported as 'any address' there.  Family: one subroutine called from two sites, the comparison asserted right after the
+    FIRST call returns (nothing after the second): the call site of the first call and its return point lie only on accepting paths
+    that make the comparison - the blocks of the second site do not (they must say 'any address': soundness)."""
+    import impl, re as _re
+    n = 0
+    fields = {'RekeyTo': 'rekey', 'CloseRemainderTo': 'close', 'AssetCloseTo': 'aclose', 'Sender': 'sender'}
+    for f, tag in fields.items():
+        for const in ('global ZeroAddress', f'addr {gen.LITERALS[0]}'):
+            for swap in (False, True):
+                for callee in (0, 1):
+                    cmpx = [const, f'txn {f}', '=='] if swap else [f'txn {f}', const, '==']
+                    L = ['#pragma version 8', 'txn NumAppArgs', 'bnz second', 'callsub f'] + cmpx + ['assert', 'int 1', 'return', 'second:', 'callsub f',
+                         'int 1', 'return', 'f:'] + (['int 3', 'pop'] if callee else []) + ['retsub']
+                    src = '\n'.join(L) + '\n'
+                    toks, lines = impl.analyse_source(src, want=('ctx',))
+                    n += 1
+                    anyof = {}
+                    for l in lines:
+                        m = _re.match(r'ctx (\d+) self 0 .*\b' + tag + r'=(A?)\[', l)
+                        if m: anyof[int(m.group(1))] = (m.group(2) == 'A')
+                    # blocks: 0 entry, 1 first call site, 2 its return point (the comparison), 3 second call site, 4 its return point, 5 callee
+                    for b, want_any in ((1, False), (2, False), (3, True), (4, True)):
+                        if b in anyof and anyof[b] != want_any:
+                            cx.violations.append({'kind': 'converse', 'program': f'twosite-addr/{f}/{const}/{swap}/{callee}', 'prop': 'C08', 'field': tag, 'where': f'block {b}',
+                                                  'detail': (f"block {b} lies only on accepting paths that compare {f} with {const}, yet it is reported as 'any address'" if not want_any else
+                                                             f"block {b} lies on an accepting path that never compares {f}, yet 'any address' is not reported there"),
+                                                  'src': src, 'env': None})
+                    if not anyof:
+                        cx.broken.append(f"C08 converse stage: no context lines for {f}"); return n
+    cx.evaluations += n
+    return n
+
+
 def semantic_check(pid):
     def run(cx, replay=None):
         spec = SEM[pid]
         if replay is not None:
             return do_replay(cx, pid, spec, replay)
         nprog, nenv = volumes(cx, 90, 100)
-        streams = ('corpus', 'fragment', 'shapes', 'direct', 'callfam') + (('branchcall', 'lookalike', 'edgeroles') if pid in ('C01', 'C03', 'C06', 'C07', 'C08', 'C09', 'C10') else ()) + (('twofield',) if pid in ('C01', 'C03', 'C07', 'C08') else ()) + (('layout',) if pid in ('C04', 'C05') else ()) + (('addrfam',) if pid in ('C01', 'C08') else ()) + (('straight',) if pid == 'C11' else ())
+        streams = ('corpus', 'fragment', 'shapes', 'direct', 'callfam') + (('branchcall', 'lookalike', 'edgeroles', 'twosite') if pid in ('C01', 'C03', 'C06', 'C07', 'C08', 'C09', 'C10') else ()) + (('twofield',) if pid in ('C01', 'C03', 'C07', 'C08') else ()) + (('layout',) if pid in ('C04', 'C05') else ()) + (('addrfam',) if pid in ('C01', 'C08') else ()) + (('straight',) if pid == 'C11' else ())
         items = make_items(cx, spec, nprog, nenv, streams)
         results = engine.run_items(items)
         src_of = {it['name']: it['src'] for it in items}
@@ -226,6 +265,8 @@ def semantic_check(pid):
         if pid == 'C05':
             import clichecks
             stats['call_graph_exports'] = clichecks.callgraph_export(cx)
+        if pid == 'C08':
+            stats['converse_cases'] = c08_converse(cx)
         if pid == 'C11':
             # failing-input search for the table obligations: the opcode sample whose declared effect deviates
             import extract, re as _re
